@@ -489,20 +489,51 @@ func (x *Exec) appendB(st *State, fr *Frame, args []Value, in *ssa.Call) Value {
 		fail("append of %T", args[1])
 	}
 	if !addLen.IsConst() || addLen.Val > 64 {
-		// symbolic number of appended elements: contents by lambda (scalars only)
-		var oldT *Term
-		if old.Obj != nil {
-			oldT = x.getPath(x.heapGet(st, old.Obj), old.Base).(ArrayT).T
-		}
-		s, _ := leafSort(et)
+		// symbolic number of appended elements: contents by lambda, leaf by leaf for structured elements
 		j := Bound(fmt.Sprintf("j_b%d", x.nextFresh()), BV(64))
-		var oldAt *Term = zeroTerm(s)
-		if oldT != nil {
-			oldAt = Select(oldT, bin("bvadd", old.Off, j))
+		inOld := cmp("bvult", j, old.Len)
+		var content Value
+		if s, ok := leafSort(et); ok {
+			var oldAt *Term = zeroTerm(s)
+			if old.Obj != nil {
+				oldAt = Select(x.getPath(x.heapGet(st, old.Obj), old.Base).(ArrayT).T, bin("bvadd", old.Off, j))
+			}
+			content = ArrayT{T: Lambda(j, Ite(inOld, oldAt, x.leafTerm(addAt(bin("bvsub", j, old.Len))))), Len: 1 << 40, Elem: et}
+		} else {
+			// struct elements: every leaf array is the lambda over the two sources' leaf arrays
+			add, okA := args[1].(SliceV)
+			if !okA || add.Obj == nil {
+				fail("append of structured elements from %T", args[1])
+			}
+			addL := x.getPath(x.heapGet(st, add.Obj), add.Base).(ArrayS).L
+			var oldL Value = x.liftZero(et, BV(64))
+			if old.Obj != nil {
+				oldL = x.getPath(x.heapGet(st, old.Obj), old.Base).(ArrayS).L
+			}
+			var zip func(a, b Value) Value
+			zip = func(a, b Value) Value {
+				switch av := a.(type) {
+				case Scalar:
+					return Scalar{Lambda(j, Ite(inOld, Select(av.T, bin("bvadd", old.Off, j)), Select(b.(Scalar).T, bin("bvadd", add.Off, bin("bvsub", j, old.Len)))))}
+				case StrV:
+					return StrV{Lambda(j, Ite(inOld, Select(av.T, bin("bvadd", old.Off, j)), Select(b.(StrV).T, bin("bvadd", add.Off, bin("bvsub", j, old.Len)))))}
+				case RefV:
+					return RefV{Lambda(j, Ite(inOld, Select(av.T, bin("bvadd", old.Off, j)), Select(b.(RefV).T, bin("bvadd", add.Off, bin("bvsub", j, old.Len)))))}
+				case StructV:
+					r := StructV{F: make([]Value, len(av.F))}
+					for i := range av.F {
+						r.F[i] = zip(av.F[i], b.(StructV).F[i])
+					}
+					return r
+				}
+				fail("append: lifted leaf %T", a)
+				return nil
+			}
+			content = ArrayS{L: zip(oldL, addL), Len: 1 << 40, Elem: et}
 		}
-		body := Ite(cmp("bvult", j, old.Len), oldAt, x.leafTerm(addAt(bin("bvsub", j, old.Len))))
 		o := x.newObj(types.NewArray(et, 1<<40), "append#backing")
-		st.Heap[o.ID] = ArrayT{T: Lambda(j, body), Len: 1 << 40, Elem: et}
+		o.Owned = true
+		st.Heap[o.ID] = content
 		n := bin("bvadd", old.Len, addLen)
 		c := x.freshVar("appendcap", BV(64))
 		st.Assume = append(st.Assume, cmp("bvule", n, c), cmp("bvult", c, Const(64, 1<<40)))
